@@ -54,7 +54,7 @@ def main():
             if os.path.abspath(out_dir) != os.path.abspath(dst):
                 if os.path.exists(dst):
                     shutil.rmtree(dst)
-                shutil.copytree(out_dir, dst, ignore=shutil.ignore_patterns("demo_bin", "demo", "a.out", "*.o"))
+                shutil.copytree(out_dir, dst, ignore=shutil.ignore_patterns("demo_bin", "a.out", "*.o", "_bd", "_build", "_demo_build", "_db"))
             meta = json.load(open(os.path.join(dst, "meta.json")))
             meta["confirmed_by_coordinator"] = rec
             meta["what_was_run"] = ["sh _out/run_demo.sh on unchanged HEAD (exit 0)", "git apply patch.diff; cmake RelWithDebInfo build; ctest (82/82)",
